@@ -460,3 +460,19 @@ def c04_7(ctx):
 def c04_8(ctx):
     from . import C09 as _c09
     _c09.c09_1(ctx)
+
+
+@obligation('C04.9', 'MATCH argument roles', '_dates:uk2dt (day/month rebuild)',
+            'a numeric UK string dd/mm/yyyy that dateutil read the American way is rebuilt with day and month exchanged AND EVERYTHING ELSE IN PLACE: dt(year, res.day, res.month, hour, minute, second, microsecond) in exactly that order',
+            axioms=())
+def c04_9(ctx):
+    f = ctx.repo.fn('_dates:uk2dt')
+    calls = [c for c in calls_in(f.node, 'dt') if len(c.args) >= 3 and 'res.day' in [U(a) for a in c.args]]
+    ctx.at_least(1, len(calls), 'day/month rebuild calls in uk2dt')
+    for c in calls:
+        ctx.count(1, f.where(c))
+        got = [U(a) for a in c.args]
+        want = ['res.year', 'res.day', 'res.month', 'res.hour', 'res.minute', 'res.second', 'res.microsecond']
+        if got != want[:len(got)] or len(got) < 7:
+            ctx.fail(f, c, 'the rebuilt date is dt(%s); expected dt(%s): day and month exchanged, the time of day untouched and complete' % (', '.join(got), ', '.join(want)),
+                     witness="dt('03/04/2021 10:30') is 3 April 2021 10:30")
